@@ -1,6 +1,7 @@
 package main
 
 import (
+	"encoding/json"
 	"fmt"
 	"math/big"
 	"sort"
@@ -100,7 +101,7 @@ func (m *ChainMonitor) CheckChain(blocks []*ledger.Block, step string) {
 				for _, in := range t.Inputs() {
 					key := outKey{in.TransactionId(), in.OutputIndex()}
 					// C03
-					if in.VerifySignature() != nil {
+					if !inputSigValid(in) {
 						m.hit("C03", "sig", fmt.Sprintf("%s: block %d transaction %s input %s/%d has an invalid signature", step, k, t.Id(), key.id, key.idx))
 					}
 					if prev, dup := consumed[key]; dup {
@@ -295,7 +296,7 @@ func (m *ChainMonitor) CheckAdmit(t *ledger.Transaction, lastTs int64, lastTxs, 
 			m.hit("C02", "admit-self-conflict", fmt.Sprintf("%s: admitted transaction %s consumes %s/%d twice", step, t.Id(), k.id, k.idx))
 		}
 		seen[k] = true
-		if in.VerifySignature() != nil {
+		if !inputSigValid(in) {
 			m.hit("C03", "admit-sig", fmt.Sprintf("%s: admitted transaction %s has an invalid signature", step, t.Id()))
 		}
 	}
@@ -365,4 +366,14 @@ func (m *ChainMonitor) HitKeys() []string {
 	}
 	sort.Strings(ks)
 	return ks
+}
+
+// inputSigValid: the independent signature oracle (econ.go SigValid) on a decoded input
+func inputSigValid(in *ledger.Input) bool {
+	var j JInput
+	bs, err := json.Marshal(in)
+	if err != nil || json.Unmarshal(bs, &j) != nil {
+		return false
+	}
+	return SigValid(&j)
 }
